@@ -231,6 +231,14 @@ func (t *Tree) load(d *dumper, compiled bool) *Load {
 // compiledDigest: for every task in table order, the fast-compiled command lines, deps and static variable values.
 func compiledDigest(e *task.Executor, d *dumper) []string {
 	var out []string
+	// working directories stamped on the global variables (ast.Var.Dir is not part of the model)
+	var dirs []string
+	for k, v := range e.Taskfile.Vars.All() {
+		if v.Dir != "" {
+			dirs = append(dirs, k+"@"+d.path(v.Dir))
+		}
+	}
+	out = append(out, "vardirs="+strings.Join(dirs, ","))
 	for name := range e.Taskfile.Tasks.Keys(nil) {
 		var line string
 		res := guard(func() error {
